@@ -3738,19 +3738,19 @@ def _fix_duplicate_regular_imports(source: str) -> str:
             )
             name = alias.name
 
-            import_nodes[asname].append(node)
+            import_nodes[(name, asname)].append(node)
             import_aliases[name].add(asname)
 
     replacements = {}
     removals = set()
 
-    for asname, nodes in import_nodes.items():
+    for duplicate, nodes in import_nodes.items():
         if len(nodes) > 1:
             for node in nodes[1:]:
                 new_aliases = {
                     (alias.name, alias.asname if alias.asname != alias.name else None)
                     for alias in node.names
-                    if (alias.asname or alias.name) != asname
+                    if (alias.name, alias.asname or alias.name) != duplicate
                 }
                 new_names = [
                     ast.alias(name=name, asname=asname)
